@@ -1,0 +1,10 @@
+//go:build verif
+
+// Contracts for package rsyncd, checked by /verif/govc. Comments only.
+
+package rsyncd
+
+//@ func (*rsyncd.Server).handleConn
+//@   requires [args] len(pc.RemainingArgs) >= 1
+//@   nullable module
+//@   modifies *
